@@ -7,7 +7,13 @@ def _texts_of(v):
     return s
 
 
+def _flag(v, name):
+    return bool(v.get(name) or (v.get('failure') or {}).get(name) or (v.get('case') or {}).get(name))
+
+
 SIGNATURES = {
+    # the failing OBJECT's base text contains U+001B (set by the oracle that evaluated it - not "ESC somewhere in the history")
+    'esc_in_base': lambda v: _flag(v, 'esc_in_base'),
     # base text (or an input text) contains U+001B
     'esc_in_text': lambda v: '\\u001b' in _texts_of(v.get('history', v.get('case', v))),
 }
